@@ -1,9 +1,54 @@
+import Autog.Model.Pipeline
 import Autog.Lemmas.PopulateRename
-/-! # C08
-    Opaque identifiers. Populate commutes with every injective renaming. -/
+/-! # C08 — node identifiers are opaque labels
+
+    * `C08_populate_rename`: on the model of `EdgeSlice.Populate`, renaming the ids by ANY injective map (including onto "V1",
+      "NE0", "", long or non-ASCII strings) changes nothing but the id stored in each node (`renameG`): same node numbers, same
+      edges, same In/Out lists.
+    * After `Populate` no model function reads a node id except `collectComp`, which copies it out (`C08_collect_ids`): the types
+      of `phase1 … phase5`, `components`, `ignoreSelfLoops` take the graph state whose ids they never inspect — and on the Go
+      side the regenerated fact list `idReads` (every read of `Node.ID`, by function) and `stringKeyedMaps` pin that the real code
+      reads ids only in Populate's map, the size lookup, the result copy, `String()/SVG()` and monitor log strings
+      (`FactsCheck.Ids`).
+    * sizes: `sizeOf` looks the id up in the caller's list; renaming the list's keys along with the ids gives the same sizes
+      (`C08_sizes_rename`).
+    Search: `Layout(G)` vs `Layout(ρ G)` for adversarial ρ on every algorithm combination. -/
 
 namespace Autog
 
-theorem C08_populate_rename : type_of% @PopulateRename.populate_rename := @PopulateRename.populate_rename
+def renameG (ρ : String → String) (g : G) : G := { g with nodes := g.nodes.map fun n => { n with id := ρ n.id } }
+
+theorem C08_populate_rename (ρ : String → String) (hρ : ∀ a b, ρ a = ρ b → a = b) (es : InEdges) :
+    populate (es.map fun e => (ρ e.1, ρ e.2)) = renameG ρ (populate es) := by
+  unfold populate renameG
+  rw [PopulateRename.populate_rename ρ hρ es]
+  simp only [G.mk.injEq, and_true, true_and]
+  simp [List.zipIdx_map, List.map_map, Function.comp]
+
+theorem C08_populate_rename_lib : type_of% @PopulateRename.populate_rename := @PopulateRename.populate_rename
+
+/-- the only place where ids leave the model again: copied verbatim into the result -/
+theorem C08_collect_ids (cfg : Cfg) (shift : Rat) (ci : Nat) (g : G) (ρ : String → String) :
+    (collectComp cfg shift ci (renameG ρ g)).nodes.map (·.id) = (collectComp cfg shift ci g).nodes.map (fun n => ρ n.id) := by
+  simp only [collectComp, renameG, Array.toList_map, List.filter_map, List.map_map]
+  rfl
+
+/-- renaming the keys of the size list together with the ids gives the same size -/
+theorem C08_sizes_rename (ρ : String → String) (hρ : ∀ a b, ρ a = ρ b → a = b) (m : List (String × Rat × Rat)) (id : String) :
+    (m.map fun (k, v) => (ρ k, v)).lookup (ρ id) = m.lookup id := by
+  induction m with
+  | nil => rfl
+  | cons kv m ih =>
+    obtain ⟨k, v⟩ := kv
+    simp only [List.map_cons, List.lookup_cons]
+    by_cases h : id = k
+    · subst h; simp
+    · have h1 : (ρ id == ρ k) = false := by
+        rw [beq_eq_false_iff_ne]; exact fun e => h (hρ _ _ e)
+      have h2 : (id == k) = false := by rw [beq_eq_false_iff_ne]; exact h
+      simp only [h1, h2]; exact ih
+
+example : (populate [("V1", "NE0"), ("NE0", "")] == renameG (fun s => if s = "a" then "V1" else if s = "b" then "NE0" else "")
+    (populate [("a", "b"), ("b", "c")])) = true := by decide +kernel
 
 end Autog
